@@ -819,7 +819,7 @@ func TestC16OPRF(t *testing.T) {
 		for mode := byte(0); mode < 3; mode++ {
 			si, mode := si, mode
 			t.Run(si.name+"/"+modeNames[mode], func(t *testing.T) {
-				n := si.cases([4]int{80, 80, 24, 11}, 6)
+				n := si.cases([4]int{80, 80, 24, 11}, 4)
 				if mode == 0 {
 					n = n * 2 / 3
 				}
